@@ -120,6 +120,7 @@ type c08Case struct {
 	Min    int   // min_nodes (a binding clamp when K > n - Min)
 	Annot  bool  // the first listed node carries the no-delete annotation (it can still be tainted)
 	Dry    bool  // the group runs in dry mode: tainting is recorded in its taint tracker only
+	Big    bool  // Times are ranks 0..n-1 of n distinct creation times (rank 0 = oldest) instead of the four codes
 	MaxAge bool  // max_node_age 25m: nodes created at t1 (and the zero value) are over age, t2 / t3 are not
 	Busy   bool  // taint_effect NoExecute and the oldest node still runs a pod (it is tainted first all the same)
 }
@@ -134,6 +135,9 @@ func c08Build(p c08Case) *h.Scenario {
 	}
 	if p.MaxAge {
 		g.Opts.MaxNodeAge = "25m"
+	}
+	if p.Big {
+		g.Opts.MaxNodes, g.ASG.Max = 20, 20
 	}
 	return &h.Scenario{
 		Name: fmt.Sprintf("c08.t%v.p%v.k%d.m%d.a%v.d%v.b%v", p.Times, p.Perm, p.K, p.Min, p.Annot, p.Dry, p.Busy) + map[bool]string{true: ".maxage"}[p.MaxAge], CovName: "c08.grid", Groups: []h.GroupSpec{g}, Slots: 1, Quantum: Q,
@@ -151,10 +155,13 @@ func c08Build(p c08Case) *h.Scenario {
 			for pos, i := range p.Perm {
 				tv := p.Times[i]
 				o := sim.NodeOpt{Age: time.Duration(40-10*tv) * Q}
+				if p.Big {
+					o.Age = time.Duration(200-tv) * Q
+				}
 				if p.Annot && pos == 0 {
 					o.Annotation = "keep"
 				}
-				if tv == 0 {
+				if tv == 0 && !p.Big {
 					o.ZeroCreated = true
 				}
 				hh.W.AddNode(a, o)
@@ -278,6 +285,43 @@ func c08Scenarios(tier string, shard, shards int) []*h.Scenario {
 	add(func() *h.Scenario { return c08MultiScan("ties") })
 	add(func() *h.Scenario { return c08MultiScan("down-up-down") })
 	add(func() *h.Scenario { return c08MultiScan("recreated") })
+	// large scale-downs: 16 nodes with distinct creation times, 12 or 15 of them tainted in one scan,
+	// in structured list orders (strides coprime to 16, evens-then-odds, a perfect shuffle; rotations)
+	{
+		const n = 16
+		var bases [][]int
+		for _, stride := range []int{1, 3, 5, 7, 9, 11, 13, 15} {
+			b := make([]int, n)
+			for i := range b {
+				b[i] = (i * stride) % n
+			}
+			bases = append(bases, b)
+		}
+		evensOdds, shuffle := make([]int, 0, n), make([]int, 0, n)
+		for i := 0; i < n; i += 2 {
+			evensOdds = append(evensOdds, i)
+		}
+		for i := 1; i < n; i += 2 {
+			evensOdds = append(evensOdds, i)
+		}
+		for i := 0; i < n/2; i++ {
+			shuffle = append(shuffle, i, i+n/2)
+		}
+		bases = append(bases, evensOdds, shuffle)
+		times := make([]int, n)
+		for i := range times {
+			times[i] = i
+		}
+		for _, b := range bases {
+			for rot := 0; rot < n; rot += 2 {
+				pm := append(append([]int(nil), b[rot:]...), b[:rot]...)
+				for _, k := range []int{12, 15} {
+					pm, k := pm, k
+					add(func() *h.Scenario { return c08Build(c08Case{Times: times, Perm: pm, K: k, Big: true}) })
+				}
+			}
+		}
+	}
 	for n := 1; n <= maxN; n++ {
 		total := 1
 		for i := 0; i < n; i++ {
